@@ -1190,7 +1190,8 @@ where
     T: Storable,
 {
     fn eq(&self, other: &Self) -> bool {
-        self.handle() == other.handle()
+        //a handle is only unique within its store (keys and data in different sets may share a handle)
+        self.handle() == other.handle() && std::ptr::eq(self.store, other.store)
     }
 }
 impl<'store, T> Eq for ResultItem<'store, T> where T: Storable {}
@@ -1199,6 +1200,7 @@ where
     T: Storable,
 {
     fn hash<H: Hasher>(&self, state: &mut H) {
+        (self.store as *const T::StoreType as *const () as usize).hash(state);
         self.handle().hash(state)
     }
 }
@@ -1207,7 +1209,7 @@ where
     T: Storable,
 {
     fn partial_cmp(&self, other: &Self) -> Option<Ordering> {
-        Some(self.handle().cmp(&other.handle()))
+        Some(self.cmp(other))
     }
 }
 impl<'store, T> Ord for ResultItem<'store, T>
@@ -1215,7 +1217,10 @@ where
     T: Storable,
 {
     fn cmp(&self, other: &Self) -> Ordering {
-        self.handle().cmp(&other.handle())
+        //a handle is only unique within its store: order by store first (stores of one kind live in one vector, so this is their handle order)
+        let a = self.store as *const T::StoreType as *const () as usize;
+        let b = other.store as *const T::StoreType as *const () as usize;
+        a.cmp(&b).then_with(|| self.handle().cmp(&other.handle()))
     }
 }
 
